@@ -142,6 +142,7 @@ def float_params(fb, body):
 class _Inline(Policy):
     max_depth = 6
     max_paths = 3000
+    loop_mode = "widen"     # the result *kind* of a loop does not depend on how often it runs
 
     def inline(self, fn, args, interp, path):
         return True
@@ -175,7 +176,7 @@ def result_kinds(ps):
     """(set of tags, problems)"""
     tags, probs = set(), []
     for p in ps:
-        if p.status == "unreachable":
+        if p.status in ("unreachable", "loop-pruned"):
             continue
         if p.status != "return":
             probs.append("%s: %s" % (p.status, p.note))
